@@ -25,6 +25,26 @@ CHECKS = {
          "Exploration with an exhaustive part: 3 shapes x 4 end variants x T x rapid-event-delay, every schedule with gaps {0,1,T-1,T,T+1} up to N events (6.3M quick / 129M thorough), 176k direct statement checks, 4k / 80k stacked histories crossing the 16-slot table.",
          "Mixed-variant stacks judged only by the variant-independent invariants (the code uses the most recent variant, the guide says the first). Plain follow-up keys are plain key codes only.",
          "DESIGN.md §4 C06, appendix E.3"),
+ "C07": ("relational monitor on the real code: virtual-time reproduction of start_processing_loop run twice per history (L sleeps whenever can_block_update_idle_waiting allows, R ticks through every slept gap): no output inside a gap, identical timed traces; causal classification of differences by emulated repairs; plus the real threaded start_processing_loop vs the stepper on time-insensitive configs (TSan lane in thorough)",
+         "Exploration: 16 feature families + the random non-latching grammar, ~9k (quick) / ~100k (thorough) histories with at least one blocked point, gaps from {0,1,2,3,7,T-1,T,T+1,1000,10001,70000}; 40 / 300 real-thread schedules. Five causes on the unchanged tree are listed known findings, each recognised only by the causal experiment that removes it; every other difference is live.",
+         "The emulator models one admissible schedule of the loop (integer ms, zero processing time). Real-loop cases judge order only; wall-clock trouble is inconclusive. Trusted: simulated output.",
+         "DESIGN.md §4 C07"),
+ "C09": ("accounting oracle over the OS stream with private witness keys per chord and per-chord action counters (every press accounted once: own key or participant of exactly one fired chord), positive/negative scenario rules from the guide, v1 greedy-decomposition reference; every permutation of press and release order with gaps {0,1,T-1,T,T+1}",
+         "Exploration with an exhaustive part: 8 chord tables x {defchords, defchordsv2 all-released/first-release, base/disabled layer, counting}; all subsets of up to 3 keys complete (both tiers), 4-key subsets sampled (quick) / complete (thorough), 5-key subsets sampled in thorough (~4.5M / ~35M scenarios); 1.2k / 6k random mixed histories; parser duplicate-set cases.",
+         "Boundary conventions (v1 < T, v2 <= T) calibrated on the tree; scenarios the statement leaves open (v2 at exactly T with a press at T-1; v1 groups that start while earlier keys are still replayed) are judged by accounting only. Release slack = rapid-event-delay per fired chord + 2 x keys + 2 ticks.",
+         "DESIGN.md §4 C09"),
+ "C15": ("relational monitor through the kanata_verif hooks (real handle_time_ticks / do_live_reload in virtual time, real files, real notification channel): failed reload vs inert-reload twin (identical traces, no ConfigFileReload); successful reload: deferral, notifications, first layer, nothing pressed/scrolling, and equality with a fresh instance of the new file on the same continuation; ASan lane in thorough",
+         "Exploration: 16 pre-state scenarios x 5 request kinds x {valid, 5 fault kinds} over 1-3 real files, 2.4k (quick) / 20k (thorough) cases, every fifth with back-to-back requests. Four classes of state surviving a reload on the unchanged tree are listed known findings.",
+         "One virtual ms = rewind last_tick by 1.3 ms + the real handle_time_ticks, re-run if it reports != 1 ms. Recorded dynamic macros / clipboard slots are kept on purpose and not exercised; device options, includes, zippy files not varied.",
+         "DESIGN.md §4 C15, §3.6"),
+ "C17": ("tick-exact reference model of the documented tap-dance rules (lazy and eager) vs the OS stream of the real code, exhaustive event schedules over {dance key, other key}; invariants only where the statement leaves a choice",
+         "Exploration with an exhaustive part: lists of 1-4 actions x lazy/eager x T in {3,60} x rapid-event-delay {0,5}; every schedule of up to 6 (quick) / 7-8 (thorough) events with gaps {0,1,T-1,T,T+1} (7.3M / ~100M schedules), plus a systematic 1-6 tap family with interrupting keys.",
+         "A press exactly T after the previous one may be counted or start a new dance (both accepted, lost is not). More presses queued in one examination than list items, and lists with layer/tap-hold items: invariants only.",
+         "DESIGN.md §4 C17"),
+ "C18": ("reference model of press/release/tap/toggle compared after every operation and on the whole OS stream, identical across seven trigger paths (direct fake-key call as the TCP server makes it, on-press, on-release, legacy forms, macro item, defseq completion); tick-exact models for hold-for-duration and on-idle with the blocking predicate consulted every tick",
+         "Exhaustive operation histories up to N=5 (quick) / 7 (thorough) over every (virtual key, operation) pair on four virtual-key sets x seven paths (376k / ~10M histories), 8.7k / 60k timed scenarios at every distance D-2..D+2 around the duration.",
+         "Operations are spaced so that each has taken effect before the next; macro virtual keys only tapped; no socket is opened for the TCP path (the function the server calls is used).",
+         "DESIGN.md §4 C18"),
  "C08": ("independent macro expander + trace checker over the OS stream projected onto each macro's private key alphabet (order, multiplicity, one step per tick, minimum delays, released at end/after cancellation at every step index, repeat restarts only while held)",
          "Exploration: 10k (quick) / 300k (thorough) cases over all eight macro variants: single, cancelled at every step index, repeating, 2-4 concurrent, and 5-8 concurrent (overflow). With at most four concurrent macros everything must hold; eviction of the oldest by a fifth macro is the listed known finding.",
          "Group modifiers (S-(...)) may be released in any order (the guide does not fix it; chords must release in reverse). One custom item per config, judged for macro / macro-repeat only. Trusted: simulated output.",
